@@ -157,11 +157,18 @@ Fixpoint c07_steps (l p : list (bytes * eobs)) : bool :=
    class 3 = K-C07-longbad: some input is both over-long and malformed (an initialised engine checks
    the pattern first and answers "continue, error"; a new engine checks the length first: "stop, error") *)
 Definition longbad_b (i : bytes) : bool := (INPUT_LIMIT <? len i) && negb (valid_input_b i).
+(* class 4 = K-C07-utf8: some client input of the history, or some content an application function
+   returns, is not valid UTF-8 (a session that holds such a string in its cache is saved as CBOR text
+   and cannot be decoded again: the next request silently starts a new session) *)
+Definition non_utf8_data (ec : ecase) : bool :=
+  existsb (fun s => negb (valid_utf8 (fst s))) (ec_pers ec)
+  || existsb (fun f => existsb (fun r => negb (valid_utf8 (fr_content r))) (snd f)) (a_funcs (ec_app ec)).
 Definition c07_class (ec : ecase) : option N :=
   if c07_steps (ec_long ec) (ec_pers ec) then None
   else match c_first (ec_cfg ec) with
        | Some _ => Some 2
-       | None => if existsb (fun s => longbad_b (fst s)) (ec_pers ec) then Some 3 else Some 0
+       | None => if existsb (fun s => longbad_b (fst s)) (ec_pers ec) then Some 3
+                 else if non_utf8_data ec then Some 4 else Some 0
        end.
 Definition engine_violations_c07 (cs : list ecase) : list (N * N) := classify c07_class 0 cs.
 
